@@ -296,3 +296,33 @@ Example E2E_nonvacuous_build :
   is_err (model Checked 4294967295 (([65; 84; 65; 84], e2e_ex_trg) :: e2e_ex_banks) (fun l => l)) = true.
 Proof. vm_compute. repeat split; reflexivity. Qed.
 
+
+(* =============================================================================================== duplicated pad bank *)
+From AG Require Import Event.E2E_more_proofs.
+(* the rejection cause "a pad bank is duplicated" on the RAW banks (completes C10_e2e_rejections, which has the
+   duplicated wire and TRG banks): the same PWB bank - the same name bytes n, parsing to a Padwing bank name, and the
+   same data bytes d, decoding to a chunk - twice anywhere in the bank list.  The build is rejected whatever the other
+   banks are and under every iteration order of the chunk-group HashMap: both copies carry the same (board, chip) and
+   the same chunk id, so PwbPacket::try_from refuses their group (C04 dup_id_err); or an earlier check already failed *)
+Theorem C10_e2e_reject_duplicate_pad_bank : forall (F : Type) (fcal : Z -> F -> F) (gain_of : Z * Z -> F) (m : ovf)
+    (run : N) (banks : list (list N * list N)) (order : list (list chunkv) -> list (list chunkv))
+    (l1 l2 l3 : list (list N * list N)) (n d : list N) (b : N) (c : Chunk.chunk),
+  Forall bytes (map snd banks) -> is_order order ->
+  banks = l1 ++ (n, d) :: l2 ++ (n, d) :: l3 ->
+  Names.parse_main n = Ok (Names.KPwb b) -> Chunk.chunk_decode pwb_devices m d = Ok c ->
+  exists k, try_from_banks_model fcal gain_of m run banks order = Err k.
+Proof. exact e2e_reject_duplicate_pad_bank. Qed.
+Print Assumptions C10_e2e_reject_duplicate_pad_bank.
+
+(* non-vacuity: bank "PC00" with a one-chunk message of board 00 (device id 0x87ff28ec, chip 0, chunk 0, end of
+   message, payload 1 2 3 4, both CRC-32C valid): the name parses, the data decode; the bank twice, around the
+   banks of the accepted example, is rejected *)
+Definition e2e_ex_pwb_bank : list N * list N :=
+  ([80; 67; 48; 48],
+   [236; 40; 255; 135; 1; 0; 0; 0; 0; 0; 0; 1; 0; 0; 4; 0; 86; 82; 26; 34; 1; 2; 3; 4; 11; 115; 207; 214]).
+Example E2E_nonvacuous_duplicate_pad_bank :
+  Names.parse_main (fst e2e_ex_pwb_bank) = Ok (Names.KPwb 0) /\
+  is_ok (Chunk.chunk_decode pwb_devices Checked (snd e2e_ex_pwb_bank)) = true /\
+  is_err (try_from_banks_model ex_fcal' ex_gain Checked 4294967295
+            (e2e_ex_pwb_bank :: e2e_ex_banks ++ [e2e_ex_pwb_bank]) (fun l => l)) = true.
+Proof. vm_compute. repeat split; reflexivity. Qed.
